@@ -48,12 +48,18 @@ def strategy_(g):
             n = {"prior": R.CDIM[base], "dist": 1, "mid": R.PDIM[base]}[tag]
             z = g.pose(base, s=s) if tag == "prior" else ([g.rnd.uniform(0, 3)] if tag == "dist" else g.vec(n, s=max(s, 1.0)))
             case["ea"] = {"custom": tag, "base": base, "ids": g.ids(CE.ARITY[tag]), "z": z, "info": g.sym_matrix(n, max_cond=1e2, kind="spd")}
+        # the information of x may be handed over as an integer-dtype array (e.g. np.diag([100, 100, 1000]))
+        case["int_info"] = g.choice([False, False, False, True])
+        if case["int_info"]:
+            nn = len(case["ea"]["info"])
+            dd = [float(g.rnd.randint(1, 1000)) for _ in range(nn)]
+            case["ea"]["info"] = [[dd[i] if i == j else 0.0 for j in range(nn)] for i in range(nn)]
         case["eb"] = E.gen_edge(g, s=s, info_kind="spd", max_cond=1e2)  # for mixed pairs
         case["eb"]["off_id"] = 0
         case["struct"] = g.choice(["ids", "ids-count", "class", "subclass", "info-shape", "estimate-type", "offset-type", "offset-id", "estimate-pose-type"])
     else:
         nz = g.choice([0.05, 1e-3, 1e-5, 1e-7])
-        case["g"] = GG.gen(g, n_pose=(2, 5), n_lm=(0, 2), n_loops=(0, 2), conds=(1.0, 1e2), noise=(nz, nz), pert=(g.choice([0.3, 0.0]),) * 2, world=(1.0, 10.0, 100.0), features=("parallel", "reversed", "permute", "ids", "custom", "quat-signs", "lm_odo"), custom_flavour="num")
+        case["g"] = GG.gen(g, n_pose=(2, 5), n_lm=(0, 2), n_loops=(0, 2), conds=(1.0, 1e2), noise=(nz, nz), pert=(g.choice([0.3, 0.0]),) * 2, world=(1.0, 10.0, 100.0), features=("parallel", "reversed", "permute", "ids", "custom", "quat-signs", "lm_odo", "pure-translation-steps"), custom_flavour="num")
         case["struct"] = g.choice(["drop-edge", "add-vertex", "swap-vertices", "swap-edges", "vertex-id", "edge-class"])
         case["pre"] = g.choice(["none", "none", "chi2-both", "chi2-one", "optimize-both"])
     return case
@@ -214,6 +220,9 @@ def check(case, ctx):
 
     if level == "edge":
         x = _build_edge(case["ea"])
+        if case.get("int_info"):
+            x.information = np.array(x.information).astype(np.int64)
+            ctx.event("integer-dtype-information")
         if rel in ("copy", "below", "above"):
             y = _build_edge(case["ea"])
             if rel != "copy":
